@@ -311,9 +311,9 @@ def run_laws(res: Result, layer, v: Vec, vsys, w: Vec, tier, only=None):
 def _vectors(dim, tier):
     if dim == 4:
         vs = [x for x in A.vectors4(tier, kinds=("timelike", "spacelike", "negtime"))]
-        return vs if tier == "thorough" else vs[::4]
+        return vs if tier == "thorough" else A.representatives(vs, (len(vs) + 3) // 4)
     vs = A.vectors(dim, tier)
-    return vs if tier == "thorough" or dim == 2 else vs[::2] + [x for x in vs if x.has("near_axis")][:1]
+    return vs if tier == "thorough" or dim == 2 else A.representatives(vs, (len(vs) + 1) // 2)
 
 
 def run_shard(shard, tier):
